@@ -180,7 +180,7 @@ open Primaite.Gen.RequestCore in
 split, missing key → unreachable, look up, validator false → failure, else invoke handler or sub-manager. -/
 theorem C05_gen_call_shape :
     callSteps = [.ifEmpty_unreachable, .takeKey, .takeOptions, .ifMissing_unreachable, .lookup,
-                 .ifValidatorFalse_failure, .invoke] := by decide
+                 .ifValidatorFalse_failure, .ifManager_invoke, .invokeLeaf_optionsError_failure] := by decide
 
 open Primaite.Gen.RequestCore in
 /-- Totality of the key test: an element that cannot be a dictionary key (a list or dict in a key position) is answered
@@ -237,15 +237,39 @@ example : dispatchK envOn exKids [] 0 = .unreachable 0 := by decide
 example : dispatchK envOn exKids ["network", "node", "pc", "shutdown", "a", "b", "c", "d"] 0 = .reached 10 ["a", "b", "c", "d"] := by
   decide
 
-/-! ### "every request is answered" with handlers AS THEY ARE (finding F-C05-2, open)
+/-! ### "every request is answered" with handlers AS THEY ARE (finding F-C05-2, repaired)
 
-In the theorems above a handler is a total function (`run`).  The code's handlers are not: 30 of them index or unpack their
-options unchecked and RAISE when the request carries fewer options than they read.  `execRK` models that: handler `h` reads
-`arity h` options and raises (`none`) when given fewer. -/
+In the theorems above a handler is a total function (`run`).  The code's handlers read their options by position and 30 of
+them read options the request may not carry.  Since the repair a leaf handler is handed the options as `_RequestOptions`, a
+list whose out-of-range read raises `RequestOptionsError`, and `__call__` answers exactly that exception with `failure`
+(`C05_gen_missing_options_answered` pins both).  Model: a handler returns the state it reached and either a status or
+`optionsError` (it read a missing option at that point). -/
 
-/-- execution with handlers that raise on missing options; `none` = an exception escapes `apply_request` -/
-def execRK {σ} (env : Env) (arity : HId → Nat) (run : HId → List Key → σ → σ × Status) :
-    Kids → List Key → σ → Option (σ × Status)
+inductive HResult where
+  | answered (st : Status)
+  | optionsError
+deriving DecidableEq, Repr
+
+/-- what `__call__` makes of a leaf handler's result -/
+def answer {σ} : σ × HResult → σ × Status
+  | (s, .answered st) => (s, st)
+  | (s, .optionsError) => (s, .failure)
+
+/-- execution as repaired: total — every request is answered with a status -/
+def execRK {σ} (env : Env) (run : HId → List Key → σ → σ × HResult) : Kids → List Key → σ → σ × Status
+  | _, [], s => (s, .unreachable)
+  | kids, k :: rest, s =>
+    match lookup k kids with
+    | none => (s, .unreachable)
+    | some (v, sub) =>
+      if env v rest then
+        match sub with
+        | .leaf h => answer (run h rest s)
+        | .node kids' => execRK env run kids' rest s
+      else (s, .failure)
+
+/-- execution BEFORE the repair (kept to document why it was needed): the handler's options error escapes `apply_request` -/
+def execUnrepairedK {σ} (env : Env) (run : HId → List Key → σ → σ × HResult) : Kids → List Key → σ → Option (σ × Status)
   | _, [], s => some (s, .unreachable)
   | kids, k :: rest, s =>
     match lookup k kids with
@@ -253,71 +277,70 @@ def execRK {σ} (env : Env) (arity : HId → Nat) (run : HId → List Key → σ
     | some (v, sub) =>
       if env v rest then
         match sub with
-        | .leaf h => if rest.length < arity h then none else some (run h rest s)
-        | .node kids' => execRK env arity run kids' rest s
+        | .leaf h => match run h rest s with
+          | (s', .answered st) => some (s', st)
+          | (_, .optionsError) => none
+        | .node kids' => execUnrepairedK env run kids' rest s
       else some (s, .failure)
 
-/-- the FULL statement: every request submitted is answered (nothing escapes), whatever the tree, rules, handlers, state -/
-def C05_FullAnswered : Prop :=
-  ∀ (env : Env) (arity : HId → Nat) (run : HId → List Key → Unit → Unit × Status) (kids : Kids) (p : List Key),
-    (execRK env arity run kids p ()).isSome = true
-
-/-- the request carries the options its handler reads (decidable; excludes exactly the defect) -/
-def optionsSuffice (env : Env) (arity : HId → Nat) (kids : Kids) (p : List Key) : Bool :=
-  match dispatchK env kids p 0 with
-  | .reached h args => decide (arity h ≤ args.length)
-  | _ => true
-
-/-- PARTIAL: a request is answered — and exactly as the total-handler model says — whenever it is refused, or reaches a
-handler with at least the options that handler reads. -/
-theorem C05_answered_partial {σ} (env : Env) (arity : HId → Nat) (run : HId → List Key → σ → σ × Status)
-    (kids : Kids) (p : List Key) (s : σ) (h : optionsSuffice env arity kids p = true) :
-    execRK env arity run kids p s = some (execK env run kids p s) := by
-  unfold optionsSuffice at h
-  generalize hd : (0 : Nat) = d at h
-  clear hd
+/-- FULL: every request submitted is answered with a status, for every tree, rules, handlers (including handlers that read
+options the request does not carry), state and request: a refusal leaves the state as it was and is `unreachable` / `failure`;
+a reached handler's answer is passed on; a reached handler that reads a missing option is answered `failure` (with the state
+the handler had reached — it is a handler failure, not a refusal). -/
+theorem C05_FullAnswered {σ} (env : Env) (run : HId → List Key → σ → σ × HResult) (kids : Kids) (p : List Key) (s : σ)
+    (d : Nat) :
+    execRK env run kids p s =
+      match dispatchK env kids p d with
+      | .unreachable _ => (s, .unreachable)
+      | .failure _ _ => (s, .failure)
+      | .reached h args => answer (run h args s) := by
   induction p generalizing kids d with
-  | nil => simp [execRK, execK]
+  | nil => simp [execRK, dispatchK]
   | cons k rest ih =>
-    simp only [execRK, execK]
-    simp only [dispatchK] at h
+    simp only [execRK, dispatchK]
     cases hl : lookup k kids with
     | none => simp
     | some vs =>
       obtain ⟨v, sub⟩ := vs
-      rw [hl] at h
       cases hv : env v rest with
       | false => simp [hv]
       | true =>
-        simp only [hv, if_true] at h ⊢
         cases sub with
-        | leaf hh =>
-          simp only at h ⊢
-          have : ¬ rest.length < arity hh := by
-            have := of_decide_eq_true h; omega
-          simp [this]
-        | node kids' => exact ih kids' (d + 1) h
+        | leaf h => simp [hv]
+        | node kids' => simpa [hv] using ih kids' (d + 1)
 
-/-- refusals are always answered (the defect lives in handlers only) -/
-theorem C05_refusal_always_answered {σ} (env : Env) (arity : HId → Nat) (run : HId → List Key → σ → σ × Status)
-    (kids : Kids) (p : List Key) (s : σ) (h : (dispatchK env kids p 0).isReached = false) :
-    execRK env arity run kids p s = some (execK env run kids p s) := by
-  apply C05_answered_partial
-  unfold optionsSuffice
-  cases hd : dispatchK env kids p 0 with
-  | unreachable d => rfl
-  | failure d v => rfl
-  | reached hh a => rw [hd] at h; simp [Outcome.isReached] at h
+/-- the repair changes nothing where the unrepaired code answered, and answers `failure` exactly where it raised -/
+theorem C05_repair_answers_what_raised {σ} (env : Env) (run : HId → List Key → σ → σ × HResult) (kids : Kids)
+    (p : List Key) (s : σ) :
+    (∀ r, execUnrepairedK env run kids p s = some r → execRK env run kids p s = r) ∧
+    (execUnrepairedK env run kids p s = none → (execRK env run kids p s).2 = .failure) := by
+  induction p generalizing kids with
+  | nil => simp [execRK, execUnrepairedK]
+  | cons k rest ih =>
+    simp only [execRK, execUnrepairedK]
+    cases hl : lookup k kids with
+    | none => simp
+    | some vs =>
+      obtain ⟨v, sub⟩ := vs
+      cases hv : env v rest with
+      | false => simp [hv]
+      | true =>
+        cases sub with
+        | leaf h =>
+          simp only [hv, if_true]
+          cases hr : run h rest s with
+          | mk s' res => cases res <;> simp [answer]
+        | node kids' => simpa [hv] using ih kids'
 
-/-- COUNTEREXAMPLE (the witness the rig replays: `…/service/user-manager/add_user` without options): a handler that reads
-one option, reached by a request that carries none, raises. -/
-theorem C05_answered_counterexample : ¬ C05_FullAnswered := by
-  intro h
-  have := h (fun _ _ => true) (fun _ => 1) (fun _ _ s => (s, .success)) [("add_user", 0, .leaf 7)] ["add_user"]
-  simp [execRK, lookup] at this
+/-- why the repair was needed (the witness kept in corpus/C05: `…/service/user-manager/add_user` without options) -/
+theorem C05_unrepaired_raises : ∃ (run : HId → List Key → Unit → Unit × HResult),
+    execUnrepairedK (fun _ _ => true) run [("add_user", 0, .leaf 7)] ["add_user"] () = none ∧
+    execRK (fun _ _ => true) run [("add_user", 0, .leaf 7)] ["add_user"] () = ((), .failure) :=
+  ⟨fun _ args s => if args.length < 1 then (s, .optionsError) else (s, .answered .success), by decide, by decide⟩
 
-example : optionsSuffice envOn (fun _ => 1) exKids ["network", "node", "pc", "shutdown", "now"] = true := by decide
-example : optionsSuffice envOn (fun _ => 1) exKids ["network", "node", "pc", "shutdown"] = false := by decide
-example : optionsSuffice envOff (fun _ => 9) exKids ["network", "node", "pc", "shutdown"] = true := by decide
+open Primaite.Gen.RequestCore in
+/-- (Gen) `__call__` hands a LEAF handler `_RequestOptions(request_options)` inside `try … except RequestOptionsError` →
+`failure`; sub-managers are invoked with the plain list; `_RequestOptions` is `list` with only `__getitem__` overridden
+(out-of-range → `RequestOptionsError`, a subclass of `IndexError`). -/
+theorem C05_gen_missing_options_answered : leafAnswersMissingOptions = true := by decide
 end Primaite.Request
-
